@@ -389,15 +389,16 @@ End Interp.
 
 (* ---------- the canonical description (what the model is a model of) ---------- *)
 
-Definition canon_block (is3d : bool) (k : fkey) : data_d :=
-  DFill (DNTime :: DNTowers :: (if is3d then [DShape KFlx 3 0; DShape KFlx 3 1; DShape KFlx 3 2]
-                                else [DShape KFlx 2 0; DShape KFlx 2 1]))
+(* ks: the field whose unpacked shape gives the trailing extents (blocks are opaque: any field of the first result) *)
+Definition canon_block (is3d : bool) (ks k : fkey) : data_d :=
+  DFill (DNTime :: DNTowers :: (if is3d then [DShape ks 3 0; DShape ks 3 1; DShape ks 3 2]
+                                else [DShape ks 2 0; DShape ks 2 1]))
         None LByName [IxT; IxTi] GAlways (CBlock k) None.
 Definition canon_met (p : pkey) : data_d := DFill [DNTime] None LByName [IxT] GTi0 (CMet p) None.
 
-Definition canon_norm (is3d : bool) : ds_norm :=
+Definition canon_norm (is3d : bool) (ks1 ks2 : fkey) : ds_norm :=
   let bd := "time" :: "tower" :: (if is3d then ["z"; "y"; "x"] else ["y"; "x"]) in
-  mkNorm (bd, canon_block is3d KFlx) (bd, canon_block is3d KConc)
+  mkNorm (bd, canon_block is3d ks1 KFlx) (bd, canon_block is3d ks2 KConc)
          (["time"], canon_met PUstar) (["time"], canon_met PMol) (["time"], canon_met PWs) (["time"], canon_met PWd)
          (["tower"], DMeta MByName TLat) (["tower"], DMeta MByName TLon) (["tower"], DMeta MByName TZm)
          (if is3d then (["x"], DCoordIdx GX [I0; I0; IAll]) else (["x"], DCoordIf2 GX [I0; IAll] GX))
@@ -423,3 +424,50 @@ Definition attr_kind (kv : string * attr_v) : string * option (list string) :=
   (fst kv, match snd kv with AStr _ => None | AConfig p => Some p end).
 
 Definition metadata_ok (d : ds_d) : bool := forallb cf_ok (dd_vars d) && forallb cf_ok (dd_coords d).
+
+(* ---------- a concrete description: what the translator emitted for the tree the model was written for (used by the
+   non-vacuity Examples of Properties/C18.v; m = MByName is the code, m = MByPosition the ORIGINAL positional labelling) ---------- *)
+
+Definition ex_save_3d (m : meta_d) : ds_d :=
+  (mkDsD
+     [
+      mkVar "footprint" ["time"; "tower"; "z"; "y"; "x"] (DFill [DNTime; DNTowers; (DShape KFlx 3 0); (DShape KFlx 3 1); (DShape KFlx 3 2)] None LByName [IxT; IxTi] GAlways (CBlock KFlx) None) [("long_name", AStr "flux footprint"); ("units", AStr "m^-2")]; 
+      mkVar "concentration" ["time"; "tower"; "z"; "y"; "x"] (DFill [DNTime; DNTowers; (DShape KFlx 3 0); (DShape KFlx 3 1); (DShape KFlx 3 2)] None LByName [IxT; IxTi] GAlways (CBlock KConc) None) [("long_name", AStr "concentration field"); ("units", AStr "scalar_unit")]; 
+      mkVar "ustar" ["time"] (DFill [DNTime] None LByName [IxT] GTi0 (CMet PUstar) None) [("long_name", AStr "friction velocity"); ("units", AStr "m s^-1")]; 
+      mkVar "mol" ["time"] (DFill [DNTime] None LByName [IxT] GTi0 (CMet PMol) None) [("long_name", AStr "Monin-Obukhov length"); ("units", AStr "m")]; 
+      mkVar "wind_speed" ["time"] (DFill [DNTime] None LByName [IxT] GTi0 (CMet PWs) None) [("long_name", AStr "wind speed"); ("units", AStr "m s^-1")]; 
+      mkVar "wind_dir" ["time"] (DFill [DNTime] None LByName [IxT] GTi0 (CMet PWd) None) [("long_name", AStr "wind direction"); ("units", AStr "degrees")]; 
+      mkVar "tower_lat" ["tower"] (DMeta m TLat) [("long_name", AStr "tower latitude"); ("units", AStr "degrees_north")]; 
+      mkVar "tower_lon" ["tower"] (DMeta m TLon) [("long_name", AStr "tower longitude"); ("units", AStr "degrees_east")]; 
+      mkVar "tower_z" ["tower"] (DMeta m TZm) [("long_name", AStr "measurement height"); ("units", AStr "m")]]
+     [
+      mkVar "x" ["x"] (DCoordIdx GX [I0; I0; IAll]) [("long_name", AStr "easting"); ("units", AStr "m")]; 
+      mkVar "y" ["y"] (DCoordIdx GY [I0; IAll; I0]) [("long_name", AStr "northing"); ("units", AStr "m")]; 
+      mkVar "time" ["time"] (DStamps TStr) []; 
+      mkVar "tower" ["tower"] (DNames NKeys) []; 
+      mkVar "z" ["z"] (DCoordIdx GZ [IAll; I0; I0]) [("long_name", AStr "height"); ("units", AStr "m")]]
+     [("Conventions", AStr "CF-1.8"); ("title", AStr "BLDFM footprint output"); ("source", AStr "BLDFM v1.0"); ("closure", AConfig ["solver"; "closure"]); ("domain_xmax", AConfig ["domain"; "xmax"]); ("domain_ymax", AConfig ["domain"; "ymax"])]
+     [("footprint", [("zlib", EBool true); ("complevel", ENat 4)]); ("concentration", [("zlib", EBool true); ("complevel", ENat 4)])]).
+
+Definition ex_save_2d (m : meta_d) : ds_d :=
+  (mkDsD
+     [
+      mkVar "footprint" ["time"; "tower"; "y"; "x"] (DFill [DNTime; DNTowers; (DShape KFlx 2 0); (DShape KFlx 2 1)] None LByName [IxT; IxTi] GAlways (CBlock KFlx) None) [("long_name", AStr "flux footprint"); ("units", AStr "m^-2")]; 
+      mkVar "concentration" ["time"; "tower"; "y"; "x"] (DFill [DNTime; DNTowers; (DShape KFlx 2 0); (DShape KFlx 2 1)] None LByName [IxT; IxTi] GAlways (CBlock KConc) None) [("long_name", AStr "concentration field"); ("units", AStr "scalar_unit")]; 
+      mkVar "ustar" ["time"] (DFill [DNTime] None LByName [IxT] GTi0 (CMet PUstar) None) [("long_name", AStr "friction velocity"); ("units", AStr "m s^-1")]; 
+      mkVar "mol" ["time"] (DFill [DNTime] None LByName [IxT] GTi0 (CMet PMol) None) [("long_name", AStr "Monin-Obukhov length"); ("units", AStr "m")]; 
+      mkVar "wind_speed" ["time"] (DFill [DNTime] None LByName [IxT] GTi0 (CMet PWs) None) [("long_name", AStr "wind speed"); ("units", AStr "m s^-1")]; 
+      mkVar "wind_dir" ["time"] (DFill [DNTime] None LByName [IxT] GTi0 (CMet PWd) None) [("long_name", AStr "wind direction"); ("units", AStr "degrees")]; 
+      mkVar "tower_lat" ["tower"] (DMeta m TLat) [("long_name", AStr "tower latitude"); ("units", AStr "degrees_north")]; 
+      mkVar "tower_lon" ["tower"] (DMeta m TLon) [("long_name", AStr "tower longitude"); ("units", AStr "degrees_east")]; 
+      mkVar "tower_z" ["tower"] (DMeta m TZm) [("long_name", AStr "measurement height"); ("units", AStr "m")]]
+     [
+      mkVar "x" ["x"] (DCoordIf2 GX [I0; IAll] GX) [("long_name", AStr "easting"); ("units", AStr "m")]; 
+      mkVar "y" ["y"] (DCoordIf2 GY [IAll; I0] GY) [("long_name", AStr "northing"); ("units", AStr "m")]; 
+      mkVar "time" ["time"] (DStamps TStr) []; 
+      mkVar "tower" ["tower"] (DNames NKeys) []]
+     [("Conventions", AStr "CF-1.8"); ("title", AStr "BLDFM footprint output"); ("source", AStr "BLDFM v1.0"); ("closure", AConfig ["solver"; "closure"]); ("domain_xmax", AConfig ["domain"; "xmax"]); ("domain_ymax", AConfig ["domain"; "ymax"])]
+     [("footprint", [("zlib", EBool true); ("complevel", ENat 4)]); ("concentration", [("zlib", EBool true); ("complevel", ENat 4)])]).
+
+Definition ex_save (m : meta_d) : save_d := mkSaveD NKeys (KFlx, 3) (ex_save_3d m) (ex_save_2d m).
+
